@@ -27,13 +27,17 @@ def expectedConstants : List (String × Nat) := [
   ("AuthCallValueTransferGas", 6700), ("GasMagnification", 30)]
 
 /-- the gas and limit constants of the source are the ones the model was transcribed with -/
-theorem constants_match : Gen.constants = expectedConstants := by decide
+theorem constants_match : Gen.constants = expectedConstants := rfl
 
 def expectedSkeleton : List (String × List String) := [
   ("Run.readOnlyCheck", ["if $in.readOnly", "if operation.writes || (op == CALL && stack.Back(2).Sign() != 0)", "return nil, nil, ErrWriteProtection"]),
   ("Run.readOnlyEntry", ["if $ro && !$in.readOnly", "$in.readOnly = true", "defer $in.readOnly = false"]),
   ("authCallGas", []),
   ("callGas", []),
+  ("flags.Call", []),
+  ("flags.NewEVMInterpreter", ["Proposal014Block", "Proposal022Block", "Proposal026Block"]),
+  ("flags.RunPrecompiledContract", []),
+  ("flags.create", ["common.IsSub", "common.IsProposal006", "common.IsProposal007", "common.IsProposal026"]),
   ("gasAuthCall", ["B3", "B2", "memoryGasCost", "SafeAdd", "authCallGas", "B1", "SafeAdd"]),
   ("gasCall", ["B2", "B1", "memoryGasCost", "SafeAdd", "callGas", "B0", "SafeAdd"]),
   ("gasCallCode", ["memoryGasCost", "B2", "SafeAdd", "callGas", "B0", "SafeAdd"]),
@@ -67,6 +71,8 @@ def expectedSkeleton : List (String × List String) := [
   ("memoryRevert", ["calcMemSize64", "B0", "B1"]),
   ("memorySha3", ["calcMemSize64", "B0", "B1"]),
   ("memoryStaticCall", ["calcMemSize64", "B4", "B5", "calcMemSize64", "B2", "B3"]),
+  ("pkgstate.pools", ["newReturnStack:rStackPool.Get", "newstack:stackPool.Get", "returnRStack:rStackPool.Put", "returnStack:stackPool.Put"]),
+  ("pkgstate.writes", ["InitVM:logger", "init:PrecompiledAddresses"]),
   ("pureMemoryGascost", ["memoryGasCost"])
 ]
 
@@ -76,8 +82,13 @@ def expectedSkeleton : List (String × List String) := [
     `Run.readOnlyEntry` / `Run.readOnlyCheck` pin the read-only discipline of the loop that the
     model renders by passing `ro` down functionally: the interpreter-wide flag is set only if
     not already set (`$ro && !$in.readOnly`) and reset only by the frame that set it (the
-    deferred `$in.readOnly = false` inside that `if`), and the per-iteration write test. -/
-theorem source_skeleton_matches : Gen.sourceSkeleton = expectedSkeleton := by decide
+    deferred `$in.readOnly = false` inside that `if`), and the per-iteration write test.
+    `pkgstate.writes` / `pkgstate.pools`: the only package-level variables of `src/vm` any function
+    assigns are the logger (`InitVM`) and the precompile address list (`init`); the only shared
+    mutable objects on the execution path are the two `sync.Pool`s of stacks (a new package-level
+    scratch buffer, cache or flag breaks this obligation).  `flags.*`: the fork-flag reads of
+    `create` and `NewEVMInterpreter` are the ones the model's `Ctx` carries. -/
+theorem source_skeleton_matches : Gen.sourceSkeleton = expectedSkeleton := rfl
 
 def Exec.isUnknown : Exec → Bool | .unknown => true | _ => false
 def MemFn.isUnknown : MemFn → Bool | .unknown => true | _ => false
